@@ -286,6 +286,17 @@ class SigGen:
             self.feat.add('gp-exhausted')
         if nfp >= 8:
             self.feat.add('sse-exhausted')
+        # a declaration without a prototype first: the composite type must still take the parameter list that follows
+        # (allowed when every parameter type is its own default promotion, C11 6.7.6.3p15)
+        if (not variadic and params and ch.int(0, 5) == 0 and
+                all(p_.cls == 'agg' or p_.tname in ('int', 'unsigned', 'long', 'unsigned long', 'double', 'long double', 'char *', 'enum ENEG') for p_ in params)):
+            defs.append('%s f%d();' % (R.tname if R else 'void', k))
+            self.feat.add('unprototyped-first-decl')
+            # and the arguments need the conversions that only the prototype asks for
+            conv = {'double': '(int)', 'long double': '(long)', 'long': '(double)', 'unsigned long': '(float)', 'int': '(double)'}
+            newargs = [(conv.get(p_.tname, '') + a) if p_.cls != 'agg' else a for p_, a in zip(params, cargs)]
+            old_call = 'f%d(%s)' % (k, ', '.join(cargs)); new_call = 'f%d(%s)' % (k, ', '.join(newargs))
+            caller = [l.replace(old_call, new_call) for l in caller]
         return {'k': k, 'defs': '\n'.join(defs) + '\n' + proto + ';\n', 'callee': '\n'.join(cal) + '\n', 'caller': '\n'.join(caller) + '\n', 'nt': nt, 'feat': self.feat}
 
 
